@@ -144,7 +144,7 @@ pub fn rtcp_packet(r: &mut Rng, kind: u64, in_range: bool) -> RtcpPacket {
             for _ in 0..nch {
                 let ni = pk!(r, [0usize, 1, 1, 2, 3]);
                 let items = (0..ni).map(|_| {
-                    let ty = if in_range { pk!(r, [1u8, 1, 2, 3, 6, 8, 9, 255]) } else { pk!(r, [1u8, 2, 8]) };
+                    let ty = if in_range { pk!(r, [1u8, 1, 2, 3, 6, 8, 9, 255]) } else { pk!(r, [1u8, 2, 8, 0, 0]) };
                     let n = if nch > 4 { r.below(6) as usize } else { text_len(r, in_range) };
                     SdesItem { ty, text: text(r, n) } }).collect();
                 chunks.push(SdesChunk { ssrc: g32(r), items });
